@@ -6,6 +6,23 @@ sys.path.insert(0, os.path.join(VERIF, "lsa", "rules"))
 import props
 
 ids = [json.loads(l)["id"] for l in open(os.path.join(VERIF, "properties.jsonl"))]
+try:
+    FLOORS = json.load(open(os.path.join(VERIF, "lsa", "floors.json")))
+except OSError:
+    FLOORS = {}
+
+
+def rules_run(pid):
+    """the rule families this check evaluated on the reference tree (names as printed in reports),
+    each with its one-line meaning: keeps the claim current with what the check really runs"""
+    rs = sorted(FLOORS.get(pid, {}))
+    if not rs:
+        return ""
+    parts = []
+    for r in rs:
+        d = props.RULE_DOC.get(r) or props.RULE_DOC.get(r.split(".")[0]) or ""
+        parts.append("%s%s" % (r, (" - " + d) if d else ""))
+    return " Rule families evaluated by this check (DESIGN.md 11.3 / 11.4 say which seeded changes each one reports): " + "; ".join(parts) + "."
 checks, na = [], []
 for pid in ids:
     P = props.PROPS.get(pid)
@@ -19,7 +36,7 @@ for pid in ids:
         "evidence_file": "/verif/evidence/%s.json" % pid,
         "replay_cmd_template": "./check %s --replay {path}" % pid,
         "engine": "lsa",
-        "level_claimed": {"category": P.get("level", "other"), "text": P["explanation"], "design_ref": "DESIGN.md section 3, " + pid},
+        "level_claimed": {"category": P.get("level", "other"), "text": P["explanation"] + rules_run(pid), "design_ref": "DESIGN.md section 3, " + pid},
         "level_note": P.get("level_note", "Decides the structural clauses named in the text for every path of the type-checked MIR in every analysed configuration; value-level clauses of the property are not decided. Trusted: rustc front end / MIR construction / const evaluation, the fact serializer, the rule tables, core/alloc behaving as documented."),
         "technique": P.get("technique", "static analysis: custom rustc MIR driver + typestate/dataflow/call-graph rules"),
     })
@@ -34,7 +51,7 @@ m = {
          "kind_free_text": "lsa-facts: rustc_private driver dumping MIR/consts/layouts/impls of /repo's working tree per configuration; lsa/rules: Python rule engine (CFG, provenance, edge facts, interprocedural typestate solver, call graph, dataflow) deciding per-property obligations"},
     ],
     "checks": checks,
-    "notes": "fix: commits in /repo: 06bb2c2 (F1), d107a1e (F2), 3518607 (F3); see known_findings.json and DESIGN.md section 5.",
+    "notes": "fix: commits in /repo: 06bb2c2 (F1), d107a1e (F2), 3518607 (F3), 6567ca9 (F4); see known_findings.json and DESIGN.md section 5. seeded/: 283 confirmed breaking changes and 238 behaviour-preserving patches the checks were run against (MATRIX.md, BENIGN.md; DESIGN.md 11.4).",
     "not_applicable": na,
 }
 json.dump(m, open(os.path.join(VERIF, "MANIFEST.json"), "w"), indent=1)
